@@ -314,10 +314,42 @@ func runC10(c *Ctx) {
 	faultRule(c, "R8", p, cio, net)
 }
 
-// retrySentinels: package-level error variables that some loop retries on
-// (errors.Is(err, S) whose true branch leads back into the loop).
+// temporaryErrors is the frozen table of package-level errors that mean "need
+// more data, try again" (confirmed by reading the three producers); every
+// other error is fatal.  A loop that retries on anything else is reported.
+var temporaryErrors = map[string]string{
+	"transports/obfs4/framing.ErrAgain":        "Decoder.Decode: the frame buffer does not hold a complete frame yet",
+	"transports/obfs4.ErrMarkNotFoundYet":       "obfs4 handshake parsers: mark/MAC not received yet, input still below the maximum handshake length",
+	"transports/scramblesuit.errMarkNotFoundYet": "ScrambleSuit response parser: mark/MAC not received yet",
+}
+
+func globalKey(g *ssa.Global) string {
+	if g.Pkg == nil {
+		return g.Name()
+	}
+	return relPkg(g.Pkg.Pkg.Path()) + "." + g.Name()
+}
+
+// retrySentinels: the temporary errors of the table above that exist in the
+// program.
 func retrySentinels(p *Prog) map[*ssa.Global]bool {
 	out := map[*ssa.Global]bool{}
+	for _, sp := range p.SPkgs {
+		for _, m := range sp.Members {
+			if g, ok := m.(*ssa.Global); ok {
+				if _, ok := temporaryErrors[globalKey(g)]; ok {
+					out[g] = true
+				}
+			}
+		}
+	}
+	return out
+}
+
+// retriedErrors: package-level errors that some loop actually retries on
+// (errors.Is(err, S) whose true branch leads back into the loop).
+func retriedErrors(p *Prog) map[*ssa.Global]ssa.Instruction {
+	out := map[*ssa.Global]ssa.Instruction{}
 	for _, cs := range p.Sites("errors.Is") {
 		call, ok := cs.Instr.(*ssa.Call)
 		if !ok {
@@ -341,7 +373,7 @@ func retrySentinels(p *Prog) map[*ssa.Global]bool {
 			t = blk.Succs[1]
 		}
 		if reachableFrom(t, nil)[blk] {
-			out[g] = true
+			out[g] = call
 		}
 	}
 	return out
@@ -623,6 +655,15 @@ func c10Loops(c *Ctx, p *Prog, cio *connIO, net map[*ssa.Function]bool) {
 					}
 				}
 			}
+		}
+	}
+	// loops may only retry on temporary errors
+	for g, at := range retriedErrors(p) {
+		ob := c.Obl("R3", "retry-on#"+globalKey(g), "a loop retries only on an error that means 'need more data' (frozen table of temporary errors); retrying on a fatal error loses it and spins or desynchronises").At(p.InstrPos(at))
+		if why, ok := temporaryErrors[globalKey(g)]; ok {
+			ob.Hold("%s", why)
+		} else {
+			ob.Violate("the loop at %s continues when the error is %s, which is not a temporary condition", p.InstrPos(at), globalKey(g))
 		}
 	}
 	o := c.Obl("R2", "count", "anti-vacuity: the handshake read loops of obfs4 (client, server), ScrambleSuit and obfs3 are found")
